@@ -129,8 +129,8 @@ Theorem C02_kernel_is_translated (op : R -> R -> R) (XL XR YL YR : list R) :
   gen_frechet_op RN op XL XR YL YR = frechet_op RN op XL XR YL YR.
 Proof. exact (gen_frechet_op_is_model RN op XL XR YL YR). Qed.
 
-(* TIE: the default product (sign routing, negation route, zero-straddling route with the naive bound, the Balch product and their
-   imposition) IS the function translated from pba/pbox_abc.py on every run; whatever it returns is well formed (Proofs/WFExpr.v) *)
+(* TIE: the default product of the model (sign routing, negation route, zero-straddling route with the naive bound, the Balch product and
+   their imposition) equals the function translated from pba/pbox_abc.py on every run, at every fuel, on any number structure *)
 Theorem C02_product_is_translated (N : Num) (steps : nat) (p_lo p_hi : N) (p q : pbox N) :
   pmul N steps p_lo p_hi DF p q = gen_frechet_pbox_mul N steps p_lo p_hi mul_fuel p q.
 Proof. exact (frechet_mul_is_translated N steps p_lo p_hi p q). Qed.
